@@ -187,6 +187,8 @@ NearBaseW == {NpS("float64", F(1000000, 1)), NpS("float32", F(1000000, 1)), VLst
               VSer("int64", <<F(0, 1), F(1000000, 1)>>, <<I(1), I(2)>>), VSer("float64", RI2, <<F(1, 1), VNaN(0)>>), VFrm("float64", RI2, <<VStr("a")>>, <<F(0, 1), F(1000000, 1)>>)}
 NearVar == UNION {Nudge(v) : v \in NearBase \cup (IF Wide THEN NearBaseW ELSE {})}
            \cup {VArr("int64", <<1>>, <<I(1000000)>>), VArr("int64", <<1>>, <<I(1000001)>>)} \cup (IF Wide THEN {I(1000000), I(1000001)} ELSE {})
+           \* ... and inside the default tolerance of math.isclose (1e-9): 1 and 1 + 2^-30
+           \cup {F(1, 1), F(1073741825, 1073741824), VArr("float64", <<1>>, <<F(1, 1)>>), VArr("float64", <<1>>, <<F(1073741825, 1073741824)>>)}
 UX   == DeepVar \cup NearVar
 
 UV   == OrdVar \cup ViewVar \cup MissVar
